@@ -243,6 +243,49 @@ func init() {
 				out.Sample(map[string]interface{}{"target": target.name, "history": ops})
 			}
 		}
+		// (b'') the same for revocation lists, with configuration changes of the configurable CRL lint in between
+		{
+			cfgOff, _ := lint.NewConfigFromString("[e_crl_next_update_invalid]\nSubscriberCRL = false\n")
+			cfgOn, _ := lint.NewConfigFromString("[e_crl_next_update_invalid]\nSubscriberCRL = true\n")
+			for ti, tc := range corpus.CRLs {
+				crl, err := x509.ParseRevocationList(tc.DER)
+				if err != nil {
+					continue
+				}
+				g.SetConfiguration(lint.NewEmptyConfig())
+				alone := resultsOf(zlint.LintRevocationList(crl))
+				var ops []string
+				for k := 2 + rng.Intn(4); k > 0; k-- {
+					switch rng.Intn(3) {
+					case 0:
+						g.SetConfiguration(cfgOff)
+						ops = append(ops, "SetConfiguration(SubscriberCRL=false)")
+					case 1:
+						g.SetConfiguration(cfgOn)
+						ops = append(ops, "SetConfiguration(SubscriberCRL=true)")
+					default:
+						g.SetConfiguration(lint.NewEmptyConfig())
+						ops = append(ops, "SetConfiguration(empty)")
+					}
+					other := corpus.CRLs[(ti+k)%len(corpus.CRLs)]
+					zlint.LintRevocationList(other.CRL)
+					zlint.LintRevocationList(crl)
+					ops = append(ops, "lint "+other.File, "lint "+tc.File)
+					if len(corpus.OCSPs) > 0 {
+						zlint.LintOcspResponse(corpus.OCSPs[k%len(corpus.OCSPs)].Resp)
+					}
+				}
+				g.SetConfiguration(lint.NewEmptyConfig())
+				after := resultsOf(zlint.LintRevocationList(crl))
+				histRuns++
+				for n, v := range alone {
+					if after[n] != v {
+						out.Violate("C05|history-dependent-crl:"+n, fmt.Sprintf("CRL lint %s on %s gives %v under the empty configuration and %v under the same configuration after a history of other calls", n, tc.File, v, after[n]),
+							map[string]interface{}{"object": tc.File, "history": ops}, v, after[n])
+					}
+				}
+			}
+		}
 		out.Stats["histories"] = histRuns
 		// (b') order independence across processes: the whole population linted in one order in a fresh process and in the
 		// reverse order in another; a verdict that depends on what was linted before differs between the two
